@@ -114,6 +114,10 @@ def install_fault(sim, fault):
             sim.stop_proc(t.proc)
         elif kind == 'gate':
             sim.gate_open('fault')
+        elif kind == 'stall':
+            # the triggering thread is descheduled for a while (slow node / slow link)
+            t.stall_until = sim.now + fault.get('duration', 2.0)
+            sim.ev('stall', t.name, fault.get('duration', 2.0))
         else:
             raise ValueError(kind)
 
